@@ -1,8 +1,18 @@
 (* Extraction of the executable model to OCaml.  Only ExtrOcamlBasic's mappings are used
    (bool, option, unit, list, prod, sumbool, sumor); N, Z, positive, nat stay inductive. *)
 From Coq Require Import Extraction ExtrOcamlBasic.
-From FV Require Import Model.Base Model.Sink.
+From FV Require Import Model.Base Model.Sink Model.Crc Model.Codes Model.Rice Model.Predict
+  Model.Component Model.Encoder Model.Flac.
 Extraction Language OCaml.
 Set Extraction KeepSingleton.
 Separate Extraction
-  Sink.run Sink.export_bytes Sink.storage Sink.user_run Sink.blen.
+  Sink.run Sink.export_bytes Sink.storage Sink.user_run Sink.blen Sink.ideal_run
+  Crc.crc8 Crc.crc16
+  Codes.block_size_code Codes.sample_rate_code Codes.sample_size_tag Codes.utf8like Codes.utf8like_bytesize
+  Rice.find_prc Rice.table_from_errors Rice.table_merge Rice.minimizer Rice.finest_partition_order
+  Rice.encode_residual Rice.residual_bits Rice.zigzag
+  Predict.fixed_errors Predict.lpc_errors Predict.lpc_fits
+  Component.stream_bytes Component.frame_bytes Component.stream_count_bits Component.frame_count_bits
+  Component.subframe_count_bits Component.subframe_ops Component.precompute
+  Flac.decode_stream Flac.strict_ok Flac.frame_lengths Flac.read_magic_and_meta Flac.rd_of
+  Encoder.encode_stream Encoder.encode_stream_bytes Encoder.encode_fixed_size_frame Encoder.encode_subframe.
